@@ -63,6 +63,11 @@ META_LEAVES = {
 }
 
 
+def _foreign(sh):
+    # a raw operand that is one special group the library can only wrap: its grouping is judged although it is raw
+    return ['foreign-group'] if isinstance(sh, S.N) and sh.k == 'Raw' and S.foreign_group(sh.text) else []
+
+
 class CaseTimeout(Exception):
     pass
 
@@ -561,9 +566,9 @@ class Interp:
         if f == 'm':
             pr, ps = self.P(xr, xs)
             return self.call('capture', 'm', lambda: pr.capture(name), lambda: S.capture(S.operand(ps), name), [(pr, ps)],
-                             flags=['group'])
+                             flags=['group'] + _foreign(ps))
         return self.call('Capture', 'c', lambda: GR.Capture(xr, name), lambda: S.capture(S.operand(xs), name), [(xr, xs)],
-                         flags=['group'])
+                         flags=['group'] + _foreign(xs))
 
     def op_grp(self, t, f):
         xr, xs = self.ev(t['x'][0])
@@ -571,9 +576,9 @@ class Interp:
         if f == 'm':
             pr, ps = self.P(xr, xs)
             return self.call('group', 'm', lambda: pr.group(ci), lambda: S.group(S.operand(ps), ci), [(pr, ps)],
-                             flags=['group'])
+                             flags=['group'] + _foreign(ps))
         return self.call('Group', 'c', lambda: GR.Group(xr, ci), lambda: S.group(S.operand(xs), ci), [(xr, xs)],
-                         flags=['group'])
+                         flags=['group'] + _foreign(xs))
 
     def op_cond(self, t, f):
         name = t['name']
